@@ -623,11 +623,7 @@ def history_case(draw, tier):
                    "counts": prev["counts"] if draw(st.booleans()) else draw(counts_st(ns, no))}
         else:
             if loss == "se":
-                if no == 2:
-                    mode = draw(st.sampled_from(SE_MODES))
-                else:  # inverse-covariance modes hit the known shape error for >= 3 outcomes: keep them rarer
-                    mode = draw(st.sampled_from(("custom", "identity", "custom", "identity", "custom",
-                                                 "unbiased_inverse_covariance") + INVCOV))
+                mode = draw(st.sampled_from(("custom", "identity") + SE_MODES))
             else:
                 mode = draw(st.sampled_from(["custom", "identity"]))
             stp = {"mode": mode, "weights": draw(weight_spec(loss, max(ns, no * no))) if mode == "custom" else None,
